@@ -974,6 +974,32 @@ Section RoundTrip.
     unfold wtraj. unfold world_traj in *. rewrite ER, ET in *.
     destruct (remove_inplace pose comp max_depth R T) as [T'| |]; try discriminate. exists T'. split; reflexivity.
   Qed.
+
+  (* ---------------------------------------------------------------- import options and histories of calls *)
+  Local Notation impm := (import_mode tok read cam_name model_names M false).
+  Local Notation rtm := (roundtrip_mode comp tok show read cam_name model_ids model_names unknown unknown_as focal_factor M false).
+
+  (* database + reconstruction, nothing skipped (whatever no_geometric_filtering): the import the theorems are about *)
+  Lemma import_mode_full g c : impm (mkIO SBoth false g) c = imp c.
+  Proof.
+    unfold import_mode, import_data. cbn [io_src io_skip andb negb orb].
+    destruct (import_feats (import_records_db cam_name (fst c)) 6 (db_kp (fst c))); reflexivity.
+  Qed.
+
+  Lemma roundtrip_mode_full g d : rtm (mkIO SBoth false g) d = rt d.
+  Proof.
+    unfold roundtrip_mode, roundtrip. destruct (export _ _ _ _ _ _ _ _ _ _ d) as [c|]; [|reflexivity].
+    unfold import, import_ok_mode. cbn [io_src io_skip orb]. rewrite import_mode_full. destruct (import_ok tok false c); reflexivity.
+  Qed.
+
+  (* the result of a call inside a history is the result of that call alone *)
+  Lemma run_history_nth (h1 h2 : list (iopts * dataset)) (o : iopts) (d : dataset) :
+    nth_error (run_history comp tok show read cam_name model_ids model_names unknown unknown_as focal_factor M false
+                           (h1 ++ (o, d) :: h2)) (List.length h1) = Some (rtm o d).
+  Proof.
+    unfold run_history. rewrite map_app. cbn [map fst snd].
+    rewrite nth_error_app2 by (rewrite map_length; lia). rewrite map_length, Nat.sub_diag. reflexivity.
+  Qed.
 End RoundTrip.
 
 (* ------------------------------------------------------------------ the naming used in executions is injective *)
